@@ -1,10 +1,13 @@
 #!/bin/bash
-# tools/try_mutant.sh Cxx path/to/patch.diff [tier]  -- apply a seeded change to /repo, run the check, undo
+# tools/try_mutant.sh Cxx path/to/patch.diff [tier]
+# Applies a seeded change in the scratch worktree /tmp/wt/Cxx (never in /repo), runs the check
+# against that worktree, and restores it.
 pid=$1; patch=$2; tier=${3:-quick}
-cd /repo || exit 2
-if ! git diff --quiet; then echo "repo dirty"; exit 2; fi
-git apply "$patch" || { echo "patch does not apply"; exit 2; }
-cd /verif && ./check $pid --tier $tier > /tmp/mut_$pid.log 2>&1; rc=$?
-git -C /repo checkout -- .
-grep -E "VIOLATION|KNOWN-FINDING|FAILING INPUT|obligations|failed|broken|translator" /tmp/mut_$pid.log | cut -c1-400 | head -12
+wt=/tmp/wt/$pid
+[ -d $wt ] || git -C /repo worktree add -q --detach $wt HEAD
+cd $wt || exit 2
+git checkout -q -- . ; git apply "$patch" || { echo "patch does not apply"; exit 2; }
+cd /verif && WALLGO_REPO=$wt ./check $pid --tier $tier > /tmp/mut_$pid.log 2>&1; rc=$?
+git -C $wt checkout -q -- .
+grep -E "VIOLATION|KNOWN-FINDING|FAILING INPUT|obligations|failed|broken|translator" /tmp/mut_$pid.log | cut -c1-300 | head -12
 echo "rc=$rc"
